@@ -216,6 +216,8 @@ def run(ctx):
 
     # ---- C05.d reductions ----------------------------------------------------------------------------------------
     ctx.rule("C05.d", "0 + h copies h; collection.sum() and the dask graph reduce with sum over all members / chunk keys", 3)
+    from rules import c14
+    c14.check_stats_add(ctx, "C05.d", m)
     ra = HB.methods.get("__radd__")
     ctx.saw(ra)
     oo = [p for p in ra.params() if p != "self"][0]
